@@ -270,7 +270,7 @@ func (vc *VC) frame() *frameSpec {
 
 // frameGoal: heap k with current value cur agrees with its entry value outside the declared frame
 // and outside objects allocated by this call. ok=false if nothing has to be shown.
-func (vc *VC) frameGoal(k string, cur Term) (string, bool) {
+func (vc *VC) frameGoal(st *State, k string, cur Term) (string, bool) {
 	fs := vc.frame()
 	if fs.everything || k == allocHeap || fs.whole[k] || (fs.whole["$maps"] && isMapHeap(k)) {
 		return "", false
@@ -296,6 +296,23 @@ func (vc *VC) frameGoal(k string, cur Term) (string, bool) {
 	}
 	if key == "Int" {
 		conds = append(conds, "(<= x!f "+vc.allocCounter(vc.entry)+")") // objects allocated by this call are outside every caller's view
+	} else if strings.HasPrefix(k, "G_") && st != nil {
+		// objects held in interface values: where the owner type declares the identity ghost field `self` (a pointer
+		// allocated together with the object), an object whose identity was allocated by this call is new as well
+		rest := k[2:]
+		if i := strings.IndexByte(rest, '_'); i > 0 {
+			sn := "G_" + rest[:i] + "_self_Int"
+			sh, ok := st.heaps[sn]
+			if !ok {
+				sh, ok = vc.entry.heaps[sn]
+			}
+			if !ok {
+				sh, ok = vc.heap0[sn]
+			}
+			if ok && !strings.HasPrefix(rest[i:], "_self_") {
+				conds = append(conds, "(<= (select "+sh.S+" x!f) "+vc.allocCounter(vc.entry)+")")
+			}
+		}
 	}
 	return fmt.Sprintf("(forall ((x!f %s)) (! (=> %s (= (select %s x!f) (select %s x!f))) :pattern ((select %s x!f))))", key, sAnd(conds...), cur.S, ent.S, cur.S), true
 }
@@ -340,7 +357,7 @@ func (vc *VC) frameObligations(final *State) {
 	}
 	sort.Strings(names)
 	for _, k := range names {
-		goal, ok := vc.frameGoal(k, final.heaps[k])
+		goal, ok := vc.frameGoal(final, k, final.heaps[k])
 		if !ok {
 			continue
 		}
@@ -362,7 +379,7 @@ func (vc *VC) frameAssume(st *State, heaps map[string]bool) {
 	sort.Strings(names)
 	for _, k := range names {
 		if cur, ok := st.heaps[k]; ok {
-			if goal, ok := vc.frameGoal(k, cur); ok {
+			if goal, ok := vc.frameGoal(st, k, cur); ok {
 				vc.assume(st, goal)
 			}
 		}
@@ -380,7 +397,7 @@ func (vc *VC) frameAssert(st *State, heaps map[string]bool, ord int, pos ast.Nod
 	sort.Strings(names)
 	for _, k := range names {
 		if cur, ok := st.heaps[k]; ok {
-			if goal, ok := vc.frameGoal(k, cur); ok {
+			if goal, ok := vc.frameGoal(st, k, cur); ok {
 				vc.assertNamed(st, fmt.Sprintf("inv-frame[%d,%s]", ord, k), "frame", goal, pos.Pos(), "loop body writes to "+k+" stay inside the declared frame")
 			}
 		}
